@@ -30,10 +30,59 @@ pub fn prop() -> Prop {
     }
 }
 
-pub const STAGES: [&str; 5] = ["fresh", "awaiting_pong", "awaiting_peng", "lingering", "closed"];
+/// The first five receivers are PeerCrypto objects (what a node holds per address); the `is_` ones are bare InitState machines
+/// in the stages that PeerCrypto never keeps around (it drops a responder's machine the moment it reaches CLOSING), which the
+/// statement nevertheless lists as a receiver stage ("closing") and which the repository's own tests drive directly.
+pub const STAGES: [&str; 8] = ["fresh", "awaiting_pong", "awaiting_peng", "lingering", "closed", "is_closing", "is_waiting_to_close", "is_timed_out"];
+
+/// A receiver under attack: a PeerCrypto object or a bare handshake state machine.
+enum Rx {
+    Pc(PeerCrypto<Blob>),
+    Is(cv::InitState<Blob>),
+}
+
+impl Rx {
+    fn view(&self) -> String {
+        match self {
+            Rx::Pc(p) => format!("{:?}", p.verif_state()),
+            Rx::Is(i) => format!("{:?}", i.verif_state()),
+        }
+    }
+
+    /// Hands the datagram (loaded in `buf`, marker included) to the receiver. Ok(text) = it was accepted / answered.
+    fn shoot(&mut self, buf: &mut MsgBuffer) -> Result<String, crate::error::Error> {
+        match self {
+            Rx::Pc(p) => p.handle_message(buf).map(|r| format!("{:?}", r)),
+            Rx::Is(i) => {
+                // PeerCrypto::handle_message strips the marker and calls handle_init with the rest
+                buf.take_prefix();
+                i.handle_init(buf).map(|r| match r {
+                    cv::InitResult::Continue => format!("Continue (reply buffer holds {} bytes)", buf.len()),
+                    cv::InitResult::Success { .. } => "Success".to_string(),
+                })
+            }
+        }
+    }
+}
+
+fn mk_is(nid: u8, key: usize, trusted: &[usize], payload: u8) -> cv::InitState<Blob> {
+    let c = mk_crypto(node_id(nid), &cfg_with_key(key, trusted, &[]), [100.0, 90.0, 80.0]).expect("crypto");
+    let trusted: std::sync::Arc<[_]> = std::sync::Arc::from(c.verif_trusted_keys());
+    cv::InitState::new(node_id(nid), Blob(vec![payload]), c.verif_key_pair(), trusted, c.verif_algorithms().clone())
+}
+
+/// One handshake message (marker included) into a bare state machine; returns its reply (marker included) if any.
+fn is_step(rx: &mut cv::InitState<Blob>, data: &[u8]) -> Vec<u8> {
+    let mut buf = MsgBuffer::new(SPACE);
+    load(&mut buf, &data[1..]);
+    rx.handle_init(&mut buf).expect("genuine handshake message");
+    let mut out = vec![0xff];
+    out.extend_from_slice(buf.message());
+    out
+}
 
 struct Setup {
-    r: PeerCrypto<Blob>,
+    r: Rx,
     /// genuine messages with names; `in_context` marks the one that R would accept next
     genuine: Vec<(String, Vec<u8>)>,
 }
@@ -59,6 +108,52 @@ fn build_stage(stage: &str) -> Setup {
     let tw = handshake(&mut t1, &mut t2);
     let twin: Vec<(String, Vec<u8>)> =
         tw.datagrams.iter().take(3).enumerate().map(|(i, d)| (format!("twin_{}", ["ping", "pong", "peng"][i]), d.1.clone())).collect();
+    if stage.starts_with("is_") {
+        let mut r = mk_is(1, 0, &[0], 1);
+        let mut s = mk_is(2, 0, &[0], 2);
+        let mut genuine = vec![];
+        let mut buf = MsgBuffer::new(SPACE);
+        match stage {
+            "is_closing" => {
+                // responder that accepted the peng: stage CLOSING
+                s.send_ping(&mut buf);
+                let mut ping = vec![0xff];
+                ping.extend_from_slice(buf.message());
+                let pong = is_step(&mut r, &ping);
+                let peng = is_step(&mut s, &pong);
+                is_step(&mut r, &peng);
+                assert_eq!(r.stage(), cv::CLOSING);
+                genuine.push(("ctx_peng_again".to_string(), peng));
+                genuine.push(("ctx_ping_again".to_string(), ping));
+            }
+            "is_waiting_to_close" => {
+                // initiator that accepted the pong and lingers
+                r.send_ping(&mut buf);
+                let mut ping = vec![0xff];
+                ping.extend_from_slice(buf.message());
+                let pong = is_step(&mut s, &ping);
+                is_step(&mut r, &pong);
+                assert_eq!(r.stage(), cv::WAITING_TO_CLOSE);
+                genuine.push(("ctx_pong_again".to_string(), pong));
+            }
+            "is_timed_out" => {
+                // initiator whose retries ran out (the error every_second returns makes the node drop it; the machine itself is CLOSING)
+                r.send_ping(&mut buf);
+                let mut ping = vec![0xff];
+                ping.extend_from_slice(buf.message());
+                let pong = is_step(&mut s, &ping);
+                for _ in 0..=cv::MAX_FAILED_RETRIES + 1 {
+                    let mut out = MsgBuffer::new(SPACE);
+                    r.every_second(&mut out).ok();
+                }
+                assert_eq!(r.stage(), cv::CLOSING);
+                genuine.push(("ctx_pong_late".to_string(), pong));
+            }
+            _ => panic!("stage"),
+        }
+        genuine.extend(twin);
+        return Setup { r: Rx::Is(r), genuine };
+    }
     let mut r = mk_pc(1, 0, &[0], 1);
     let mut s = mk_pc(2, 0, &[0], 2);
     let mut genuine = vec![];
@@ -108,7 +203,7 @@ fn build_stage(stage: &str) -> Setup {
             r.every_second(&mut out).ok();
         }
     }
-    Setup { r, genuine }
+    Setup { r: Rx::Pc(r), genuine }
 }
 
 #[derive(Serialize, Deserialize, Clone, Debug)]
@@ -224,14 +319,17 @@ fn is_genuine(setup: &Setup, d: &[u8], tail: u8) -> bool {
     })
 }
 
-fn shoot_obj(setup: &mut Setup, before: &cv::PeerCryptoView, d: &[u8], tail: u8) -> Result<u64, Fail> {
+fn shoot_obj(setup: &mut Setup, before: &String, d: &[u8], tail: u8) -> Result<u64, Fail> {
+    if matches!(setup.r, Rx::Is(_)) && d.first() != Some(&0xff) {
+        return Ok(0); // without the marker a datagram never reaches the handshake machine
+    }
     let mut buf = MsgBuffer::new(SPACE);
     load_with_tail(&mut buf, d, tail);
-    let res = setup.r.handle_message(&mut buf);
+    let res = setup.r.shoot(&mut buf);
     match res {
-        Ok(r) => Err(Fail::new("forgery_accepted", format!("receiver returned {:?} for a datagram no trusted key signed", r))),
+        Ok(r) => Err(Fail::new("forgery_accepted", format!("receiver returned {} for a datagram no trusted key signed", r))),
         Err(e) => {
-            let after = setup.r.verif_state();
+            let after = setup.r.view();
             if after != *before {
                 return Err(Fail::new("state_changed", format!("rejected datagram ({}) altered the handshake in progress", e)));
             }
@@ -254,7 +352,7 @@ pub fn run_obj(c: &ObjCase) -> CaseResult {
     if is_genuine(&setup, &d, tail) {
         return Ok(0);
     }
-    let before = setup.r.verif_state();
+    let before = setup.r.view();
     shoot_obj(&mut setup, &before, &d, tail).map_err(|f| f.with("stage", c.stage.clone()))
 }
 
@@ -312,7 +410,7 @@ pub struct StageBatch {
 fn run_stage_batch(b: &StageBatch, tier: Tier, ctx: Option<&Ctx>) -> CaseResult {
     let all = recipes(&b.stage, tier);
     let mut setup = build_stage(&b.stage);
-    let mut before = setup.r.verif_state();
+    let mut before = setup.r.view();
     let mut n = 0u64;
     let mut nt = 0u64;
     let mut first: Option<Fail> = None;
@@ -349,7 +447,7 @@ fn run_stage_batch(b: &StageBatch, tier: Tier, ctx: Option<&Ctx>) -> CaseResult 
                     first = Some(f);
                 }
                 setup = build_stage(&b.stage);
-                before = setup.r.verif_state();
+                before = setup.r.view();
             }
         }
     }
